@@ -19,10 +19,12 @@ def be32 (n : Nat) : Bytes := beN 4 n
 
 /-- minimal big-endian encoding (no leading zero bytes; `0 ↦ []`), as `big.Int.Bytes()` -/
 def natBytes (n : Nat) : Bytes :=
-  if h : n = 0 then [] else natBytes (n / 256) ++ [UInt8.ofNat (n % 256)]
+  if _h : n = 0 then [] else natBytes (n / 256) ++ [UInt8.ofNat (n % 256)]
 decreasing_by omega
 
-def str (s : String) : Bytes := s.toUTF8.toList
+/-- UTF-8 bytes of a string (defined through `String.toList` so that the kernel can
+    evaluate it on literals: `decide` proves facts about domain tags) -/
+def str (s : String) : Bytes := s.toList.flatMap String.utf8EncodeChar
 
 def hexDigit (n : Nat) : Char :=
   if n < 10 then Char.ofNat (48 + n) else Char.ofNat (87 + n)
